@@ -32,7 +32,11 @@ from mc.explore import graphstate as gs
 from mc.runner import chunked, jdump, pmap
 
 LEVEL = "exploration"
-RTOL = 1e-12  # relative (to max(1, |reference|)); calibrated: see coverage["max_rel_dev_accepted"]
+# relative to max(1, |reference|).  Calibrated on the unchanged tree: the largest deviation between a batched
+# evaluation and the evaluation of its slice alone is 6.2e-14 over VERIF_SEED in {0,1,2,7,42}, both tiers
+# (batched vs. single eigendecomposition / matrix products in the tree likelihood); 1e-10 leaves > 1000x.
+# Every run records the largest accepted deviation and where it occurred in the evidence.
+RTOL = 1e-10
 
 RUNNABLE = {"Optimizer", "MCMC", "Logger", "TreeLogger", "Sampler", "HMC", "CSV", "Dumper", "ContainerLogger"}
 STOCHASTIC = ("ELBO", "SELBO", "KLpq", "KLpqImportance", "VR", "CUBO")
@@ -354,6 +358,7 @@ class GraphCtx:
         self.joints = joint_components(self.spec)
         self.fresh_cache = {}
         self.control_cache = {}
+        self.maxdev_at = ""
         self.dep = {o: set() for o in self.obs0}
         for k in self.base:
             vals = dict(self.base)
@@ -575,7 +580,9 @@ def evaluate(g, subset, shape, mode="build"):
         status_of[obs] = status
         if status in ("ok", "ok_unbatched", "unjudged"):
             tallies[status] += 1
-            maxdev = max(maxdev, dev)
+            if dev > maxdev:
+                maxdev = dev
+                g.maxdev_at = f"{g.name} {obs} batched {list(subset)} shape {list(shape)} {mode}"
             if status == "ok" and depends and n >= 2:
                 nontrivial = True
         else:
@@ -627,7 +634,8 @@ def work(chunk):
             for mode in modes_of(shape, thorough):
                 viols, tallies, maxdev, nontrivial = evaluate(g, subset, shape, mode)
                 out.append({"graph": name, "subset": subset, "shape": shape, "mode": mode, "viols": viols,
-                            "tallies": tallies, "maxdev": maxdev, "nontrivial": nontrivial})
+                            "tallies": tallies, "maxdev": maxdev, "maxdev_at": g.maxdev_at if maxdev else "",
+                            "nontrivial": nontrivial})
     return out
 
 
@@ -671,14 +679,15 @@ def run(run):
 
     tallies = {}
     raw = []
-    maxdev = 0.0
+    maxdev, maxdev_at = 0.0, ""
     nontrivial = 0
     per_graph = {}
     samples = []
     for r in results:
         for k, v in r["tallies"].items():
             tallies[k] = tallies.get(k, 0) + v
-        maxdev = max(maxdev, r["maxdev"])
+        if r["maxdev"] > maxdev:
+            maxdev, maxdev_at = r["maxdev"], r["maxdev_at"]
         nontrivial += bool(r["nontrivial"])
         pg = per_graph.setdefault(r["graph"], {"batched_graphs": 0, "compared": 0, "raises": 0, "violations": 0})
         pg["batched_graphs"] += 1
@@ -748,7 +757,9 @@ def run(run):
         "batched_graphs": len(results),
         "outcomes": tallies,
         "max_rel_dev_accepted": maxdev,
+        "max_rel_dev_accepted_at": maxdev_at,
         "tolerance_rel": RTOL,
+        "tolerance_headroom": (RTOL / maxdev) if maxdev else None,
         "per_graph": per_graph,
         "parameters": {p["graph"]: p["params"] for p in plans},
         "parameters_without_dependants_not_enumerated": {p["graph"]: p["unused"] for p in plans if p["unused"]},
